@@ -53,6 +53,7 @@ from _griffe.docstrings.models import (
     DocstringYield,
 )
 from _griffe.docstrings.utils import docstring_warning, parse_docstring_annotation
+from _griffe.exceptions import AliasResolutionError, CyclicAliasError
 from _griffe.enumerations import DocstringSectionKind, LogLevel
 from _griffe.expressions import ExprName
 
@@ -254,7 +255,7 @@ def _read_parameters(
         if annotation is None:
             # try to use the annotation from the signature
             for name in names:
-                with suppress(AttributeError, KeyError):
+                with suppress(AttributeError, KeyError, AliasResolutionError, CyclicAliasError):
                     annotation = docstring.parent.parameters[name].annotation  # type: ignore[union-attr]
                     break
             else:
@@ -264,12 +265,13 @@ def _read_parameters(
 
         if default is None:
             for name in names:
-                with suppress(AttributeError, KeyError):
+                with suppress(AttributeError, KeyError, AliasResolutionError, CyclicAliasError):
                     default = docstring.parent.parameters[name].default  # type: ignore[union-attr]
                     break
 
         if warn_unknown_params:
-            with suppress(AttributeError):  # For Parameters sections in objects without parameters.
+            # For Parameters sections in objects without parameters.
+            with suppress(AttributeError, AliasResolutionError, CyclicAliasError):
                 params = docstring.parent.parameters  # type: ignore[union-attr]
                 for name in names:
                     if name not in params:
@@ -369,7 +371,7 @@ def _read_returns_section(
         text = dedent("\n".join(item[1:]))
         if annotation is None:
             # try to retrieve the annotation from the docstring parent
-            with suppress(AttributeError, IndexError, KeyError, ValueError):
+            with suppress(AttributeError, IndexError, KeyError, ValueError, AliasResolutionError, CyclicAliasError):
                 if docstring.parent.is_function:  # type: ignore[union-attr]
                     annotation = docstring.parent.returns  # type: ignore[union-attr]
                 elif docstring.parent.is_attribute:  # type: ignore[union-attr]
@@ -426,7 +428,7 @@ def _read_yields_section(
         text = dedent("\n".join(item[1:]))
         if annotation is None:
             # try to retrieve the annotation from the docstring parent
-            with suppress(AttributeError, IndexError, KeyError, ValueError):
+            with suppress(AttributeError, IndexError, KeyError, ValueError, AliasResolutionError, CyclicAliasError):
                 annotation = docstring.parent.annotation  # type: ignore[union-attr]
                 if annotation.is_iterator:
                     yield_item = annotation.slice
@@ -474,7 +476,7 @@ def _read_receives_section(
         text = dedent("\n".join(item[1:]))
         if annotation is None:
             # try to retrieve the annotation from the docstring parent
-            with suppress(AttributeError, IndexError, KeyError):
+            with suppress(AttributeError, IndexError, KeyError, AliasResolutionError, CyclicAliasError):
                 annotation = docstring.parent.returns  # type: ignore[union-attr]
                 if annotation.is_generator:
                     receives_item = annotation.slice.elements[1]
@@ -563,7 +565,7 @@ def _read_attributes_section(
             name = name_type
             annotation = None
         if annotation is None:
-            with suppress(AttributeError, KeyError, TypeError, ValueError):
+            with suppress(AttributeError, KeyError, TypeError, ValueError, AliasResolutionError, CyclicAliasError):
                 # Use subscript syntax to fetch annotation from inherited members too.
                 annotation = docstring.parent[name].annotation  # type: ignore[index]
         else:
